@@ -14,6 +14,77 @@ pub enum Mode {
     Sem,
     /// C10: frame property derived from the reference model's footprint only
     Frame,
+    /// C14: the same instruction on two states with identical contents, with unrelated activity in
+    /// between (node-id allocation, another instruction run), ends in identical states
+    Twice,
+    /// C15: no bound on operand magnitude beyond +-COST_RANGE; every loop must stay within the unwind
+    /// bound and results must stay within the state-derived size bound
+    Cost,
+}
+
+pub const COST_RANGE: i32 = 100_000;
+/// largest vector length a step may produce from the bounded states: L + D + 1
+pub const COST_MAXLEN: usize = 9;
+
+fn cost_pre(st: &PushState) -> bool {
+    let mut ok = true;
+    let mut i = 0;
+    while i < 4 {
+        if let Some(v) = st.int_stack.get(i) {
+            if *v > COST_RANGE || *v < -COST_RANGE {
+                ok = false;
+            }
+        }
+        i += 1;
+    }
+    ok
+}
+
+fn assert_cost(st: &PushState, sh: &Shape) {
+    let which: u8 = kani::any();
+    match which {
+        0 => {
+            let mut i = 0;
+            while i < NV + 1 {
+                if let Some(v) = st.bool_vector_stack.get(i) {
+                    assert!(v.values.len() <= COST_MAXLEN, "a BOOLVECTOR sized by operand magnitude, not by the state");
+                }
+                i += 1;
+            }
+        }
+        1 => {
+            let mut i = 0;
+            while i < NV + 1 {
+                if let Some(v) = st.int_vector_stack.get(i) {
+                    assert!(v.values.len() <= COST_MAXLEN, "an INTVECTOR sized by operand magnitude, not by the state");
+                }
+                i += 1;
+            }
+        }
+        2 => {
+            let mut i = 0;
+            while i < NV + 1 {
+                if let Some(v) = st.float_vector_stack.get(i) {
+                    assert!(v.values.len() <= COST_MAXLEN, "a FLOATVECTOR sized by operand magnitude, not by the state");
+                }
+                i += 1;
+            }
+        }
+        _ => {
+            assert!(
+                st.int_stack.size() <= sh.ni + 2
+                    && st.float_stack.size() <= sh.nf + 2
+                    && st.bool_stack.size() <= sh.nb + 2
+                    && st.name_stack.size() <= sh.nn + 2
+                    && st.code_stack.size() <= sh.nc + 2
+                    && st.exec_stack.size() <= sh.ne + 2
+                    && st.bool_vector_stack.size() <= sh.nbv + 2
+                    && st.int_vector_stack.size() <= sh.niv + 2
+                    && st.float_vector_stack.size() <= sh.nfv + 2,
+                "a stack grew by more than two items in one step"
+            );
+        }
+    }
 }
 
 pub type SpecFn = fn(&Snap) -> Want;
@@ -34,6 +105,62 @@ pub fn pre_top_int_nonneg_small(s: &PushState) -> bool {
         Some(v) => *v <= 4 && *v >= 0,
         None => true,
     }
+}
+fn small_or_extreme(v: i32) -> bool {
+    (v >= -64 && v < 64) || v == i32::MIN || v == i32::MAX
+}
+/// division / remainder equivalence is hard for SAT at full width: operands from [-64,63] + {MIN, MAX}
+pub fn pre_int_div_domain(s: &PushState) -> bool {
+    let mut ok = true;
+    let mut i = 0;
+    while i < 2 {
+        if let Some(v) = s.int_stack.get(i) {
+            if !small_or_extreme(*v) {
+                ok = false;
+            }
+        }
+        i += 1;
+    }
+    ok
+}
+/// float multiply / divide: operands with at most 7 significant mantissa bits (any sign, exponent,
+/// zero, subnormal-with-short-mantissa, inf, NaN)
+pub fn pre_flt_short_mantissa(s: &PushState) -> bool {
+    let mut ok = true;
+    let mut i = 0;
+    while i < 2 {
+        if let Some(v) = s.float_stack.get(i) {
+            if v.to_bits() & 0x0000_ffff != 0 {
+                ok = false;
+            }
+        }
+        i += 1;
+    }
+    ok
+}
+/// float vector multiply / divide / mean: every element of the top two FLOATVECTORs and the top FLOAT
+/// has at most 7 significant mantissa bits
+pub fn pre_fvec_short_mantissa(s: &PushState) -> bool {
+    let mut ok = true;
+    let mut k = 0;
+    while k < 2 {
+        if let Some(v) = s.float_vector_stack.get(k) {
+            let mut i = 0;
+            while i < v.values.len() {
+                if v.values[i].to_bits() & 0x0000_ffff != 0 {
+                    ok = false;
+                }
+                i += 1;
+            }
+        }
+        k += 1;
+    }
+    if let Some(v) = s.float_stack.get(0) {
+        if v.to_bits() & 0x0000_ffff != 0 {
+            ok = false;
+        }
+    }
+    ok
 }
 pub fn pre_top3_int_small(s: &PushState) -> bool {
     let mut ok = true;
@@ -140,107 +267,135 @@ fn prefix_fvec(got: &VecSeq<f32>, before: &VecSeq<f32>) -> bool {
 /// Did not fire: at most already-taken operands were consumed (a top suffix of the operand stacks);
 /// nothing was pushed, nothing else changed.
 fn assert_unfired(got: &Snap, before: &Snap, ops: u32) {
-    if ops & M_INT != 0 {
-        assert!(prefix_i32(&got.int, &before.int), "unfired: INTEGER stack changed beyond consuming operands");
-    } else {
-        assert!(eq_i32(&got.int, &before.int), "unfired: INTEGER stack touched (not an operand stack)");
+    let which: u8 = kani::any();
+    match which {
+        0 => {
+            if ops & M_INT != 0 {
+                assert!(prefix_i32(&got.int, &before.int), "unfired: INTEGER stack changed beyond consuming operands");
+            } else {
+                assert!(eq_i32(&got.int, &before.int), "unfired: INTEGER stack touched (not an operand stack)");
+            }
+        }
+        1 => {
+            if ops & M_FLT != 0 {
+                assert!(prefix_f32(&got.flt, &before.flt), "unfired: FLOAT stack changed beyond consuming operands");
+            } else {
+                assert!(eq_f32(&got.flt, &before.flt), "unfired: FLOAT stack touched (not an operand stack)");
+            }
+        }
+        2 => {
+            if ops & M_BOOL != 0 {
+                assert!(prefix_bool(&got.boo, &before.boo), "unfired: BOOLEAN stack changed beyond consuming operands");
+            } else {
+                assert!(eq_bool(&got.boo, &before.boo), "unfired: BOOLEAN stack touched (not an operand stack)");
+            }
+        }
+        3 => {
+            if ops & M_NAME != 0 {
+                assert!(prefix_name(&got.name, &before.name), "unfired: NAME stack changed beyond consuming operands");
+            } else {
+                assert!(eq_name(&got.name, &before.name), "unfired: NAME stack touched (not an operand stack)");
+            }
+        }
+        4 => {
+            if ops & M_CODE != 0 {
+                assert!(prefix_items(&got.code, &before.code), "unfired: CODE stack changed beyond consuming operands");
+            } else {
+                assert!(eq_items(&got.code, &before.code), "unfired: CODE stack touched (not an operand stack)");
+            }
+        }
+        5 => {
+            if ops & M_EXEC != 0 {
+                assert!(prefix_items(&got.exec, &before.exec), "unfired: EXEC stack changed beyond consuming operands");
+            } else {
+                assert!(eq_items(&got.exec, &before.exec), "unfired: EXEC stack touched (not an operand stack)");
+            }
+        }
+        6 => {
+            if ops & M_INDEX != 0 {
+                assert!(prefix_index(&got.index, &before.index), "unfired: INDEX stack changed beyond consuming operands");
+            } else {
+                assert!(eq_index(&got.index, &before.index), "unfired: INDEX stack touched (not an operand stack)");
+            }
+        }
+        7 => {
+            if ops & M_BVEC != 0 {
+                assert!(prefix_bvec(&got.bvec, &before.bvec), "unfired: BOOLVECTOR stack changed beyond consuming operands");
+            } else {
+                assert!(eq_bvec(&got.bvec, &before.bvec), "unfired: BOOLVECTOR stack touched (not an operand stack)");
+            }
+        }
+        8 => {
+            if ops & M_IVEC != 0 {
+                assert!(prefix_ivec(&got.ivec, &before.ivec), "unfired: INTVECTOR stack changed beyond consuming operands");
+            } else {
+                assert!(eq_ivec(&got.ivec, &before.ivec), "unfired: INTVECTOR stack touched (not an operand stack)");
+            }
+        }
+        9 => {
+            if ops & M_FVEC != 0 {
+                assert!(prefix_fvec(&got.fvec, &before.fvec), "unfired: FLOATVECTOR stack changed beyond consuming operands");
+            } else {
+                assert!(eq_fvec(&got.fvec, &before.fvec), "unfired: FLOATVECTOR stack touched (not an operand stack)");
+            }
+        }
+        10 => assert!(
+            (ops & M_IN != 0 && got.input_len <= before.input_len) || eq_queue(&got.inq, &before.inq),
+            "unfired: INPUT queue changed"
+        ),
+        11 => assert!(eq_queue(&got.outq, &before.outq), "unfired: OUTPUT queue changed"),
+        12 => assert!(got.graph_len == before.graph_len, "unfired: GRAPH stack changed"),
+        13 => assert!(got.bindings == before.bindings, "unfired: a name binding was created"),
+        _ => assert!(got.quote == before.quote && got.send == before.send, "unfired: a flag changed"),
     }
-    if ops & M_FLT != 0 {
-        assert!(prefix_f32(&got.flt, &before.flt), "unfired: FLOAT stack changed beyond consuming operands");
-    } else {
-        assert!(eq_f32(&got.flt, &before.flt), "unfired: FLOAT stack touched (not an operand stack)");
-    }
-    if ops & M_BOOL != 0 {
-        assert!(prefix_bool(&got.boo, &before.boo), "unfired: BOOLEAN stack changed beyond consuming operands");
-    } else {
-        assert!(eq_bool(&got.boo, &before.boo), "unfired: BOOLEAN stack touched (not an operand stack)");
-    }
-    if ops & M_NAME != 0 {
-        assert!(prefix_name(&got.name, &before.name), "unfired: NAME stack changed beyond consuming operands");
-    } else {
-        assert!(eq_name(&got.name, &before.name), "unfired: NAME stack touched (not an operand stack)");
-    }
-    if ops & M_CODE != 0 {
-        assert!(prefix_items(&got.code, &before.code), "unfired: CODE stack changed beyond consuming operands");
-    } else {
-        assert!(eq_items(&got.code, &before.code), "unfired: CODE stack touched (not an operand stack)");
-    }
-    if ops & M_EXEC != 0 {
-        assert!(prefix_items(&got.exec, &before.exec), "unfired: EXEC stack changed beyond consuming operands");
-    } else {
-        assert!(eq_items(&got.exec, &before.exec), "unfired: EXEC stack touched (not an operand stack)");
-    }
-    if ops & M_INDEX != 0 {
-        assert!(prefix_index(&got.index, &before.index), "unfired: INDEX stack changed beyond consuming operands");
-    } else {
-        assert!(eq_index(&got.index, &before.index), "unfired: INDEX stack touched (not an operand stack)");
-    }
-    if ops & M_BVEC != 0 {
-        assert!(prefix_bvec(&got.bvec, &before.bvec), "unfired: BOOLVECTOR stack changed beyond consuming operands");
-    } else {
-        assert!(eq_bvec(&got.bvec, &before.bvec), "unfired: BOOLVECTOR stack touched (not an operand stack)");
-    }
-    if ops & M_IVEC != 0 {
-        assert!(prefix_ivec(&got.ivec, &before.ivec), "unfired: INTVECTOR stack changed beyond consuming operands");
-    } else {
-        assert!(eq_ivec(&got.ivec, &before.ivec), "unfired: INTVECTOR stack touched (not an operand stack)");
-    }
-    if ops & M_FVEC != 0 {
-        assert!(prefix_fvec(&got.fvec, &before.fvec), "unfired: FLOATVECTOR stack changed beyond consuming operands");
-    } else {
-        assert!(eq_fvec(&got.fvec, &before.fvec), "unfired: FLOATVECTOR stack touched (not an operand stack)");
-    }
-    assert!(
-        got.input_len <= before.input_len && (ops & M_IN != 0 || got.input_len == before.input_len),
-        "unfired: INPUT queue changed"
-    );
-    assert!(got.output_len == before.output_len, "unfired: OUTPUT queue changed");
-    assert!(got.graph_len == before.graph_len, "unfired: GRAPH stack changed");
-    assert!(got.bindings == before.bindings, "unfired: a name binding was created");
-    assert!(got.quote == before.quote && got.send == before.send, "unfired: a flag changed");
 }
 
 /// Fired: everything outside operands|results is untouched.
 fn assert_frame(got: &Snap, before: &Snap, fp: u32) {
-    if fp & M_INT == 0 {
+    let which: u8 = kani::any();
+    if which == 0 && fp & M_INT == 0 {
         assert!(eq_i32(&got.int, &before.int), "frame: INTEGER stack is outside the documented footprint");
     }
-    if fp & M_FLT == 0 {
+    if which == 1 && fp & M_FLT == 0 {
         assert!(eq_f32(&got.flt, &before.flt), "frame: FLOAT stack is outside the documented footprint");
     }
-    if fp & M_BOOL == 0 {
+    if which == 2 && fp & M_BOOL == 0 {
         assert!(eq_bool(&got.boo, &before.boo), "frame: BOOLEAN stack is outside the documented footprint");
     }
-    if fp & M_NAME == 0 {
+    if which == 3 && fp & M_NAME == 0 {
         assert!(eq_name(&got.name, &before.name), "frame: NAME stack is outside the documented footprint");
     }
-    if fp & M_CODE == 0 {
+    if which == 4 && fp & M_CODE == 0 {
         assert!(eq_items(&got.code, &before.code), "frame: CODE stack is outside the documented footprint");
     }
-    if fp & M_EXEC == 0 {
+    if which == 5 && fp & M_EXEC == 0 {
         assert!(eq_items(&got.exec, &before.exec), "frame: EXEC stack is outside the documented footprint");
     }
-    if fp & M_INDEX == 0 {
+    if which == 6 && fp & M_INDEX == 0 {
         assert!(eq_index(&got.index, &before.index), "frame: INDEX stack is outside the documented footprint");
     }
-    if fp & M_BVEC == 0 {
+    if which == 7 && fp & M_BVEC == 0 {
         assert!(eq_bvec(&got.bvec, &before.bvec), "frame: BOOLVECTOR stack is outside the documented footprint");
     }
-    if fp & M_IVEC == 0 {
+    if which == 8 && fp & M_IVEC == 0 {
         assert!(eq_ivec(&got.ivec, &before.ivec), "frame: INTVECTOR stack is outside the documented footprint");
     }
-    if fp & M_FVEC == 0 {
+    if which == 9 && fp & M_FVEC == 0 {
         assert!(eq_fvec(&got.fvec, &before.fvec), "frame: FLOATVECTOR stack is outside the documented footprint");
     }
-    if fp & M_IN == 0 {
-        assert!(got.input_len == before.input_len, "frame: INPUT queue is outside the documented footprint");
+    if which == 10 && fp & M_IN == 0 {
+        assert!(eq_queue(&got.inq, &before.inq), "frame: INPUT queue is outside the documented footprint");
     }
-    if fp & M_OUT == 0 {
-        assert!(got.output_len == before.output_len, "frame: OUTPUT queue is outside the documented footprint");
+    if which == 11 && fp & M_OUT == 0 {
+        assert!(eq_queue(&got.outq, &before.outq), "frame: OUTPUT queue is outside the documented footprint");
     }
-    assert!(got.graph_len == before.graph_len, "frame: GRAPH stack is outside the documented footprint");
-    assert!(got.bindings == before.bindings, "frame: name bindings are outside the documented footprint");
-    if fp & M_FLAGS == 0 {
+    if which == 20 {
+        assert!(got.graph_len == before.graph_len, "frame: GRAPH stack is outside the documented footprint");
+    }
+    if which == 21 {
+        assert!(got.bindings == before.bindings, "frame: name bindings are outside the documented footprint");
+    }
+    if which == 12 && fp & M_FLAGS == 0 {
         assert!(got.quote == before.quote && got.send == before.send, "frame: flags are outside the documented footprint");
     }
 }
@@ -259,13 +414,61 @@ fn assert_sem(got: &Snap, w: &Want) {
             want.fvec.a[k] = got.fvec.a[k];
         }
     }
+    if w.free_ivec_mask != 0 && got.ivec.len == want.ivec.len && want.ivec.len >= 1 && want.ivec.len <= NV {
+        let k = want.ivec.len - 1;
+        let mut i = 0;
+        while i < NL {
+            if w.free_ivec_mask & (1u32 << i) != 0 {
+                want.ivec.a[k].a[i] = got.ivec.a[k].a[i];
+            }
+            i += 1;
+        }
+    }
     assert_snap_eq(got, &want);
 }
 
 pub fn run_shape(ins: &mut Instruction, sh: &Shape, spec: Option<SpecFn>, mode: Mode, pre: PreFn) {
+    run_shape_opt(ins, sh, spec, mode, pre, None);
+}
+
+/// Same, with the top INTEGER (the index operand) set to a concrete value.
+pub fn run_shape_idx(ins: &mut Instruction, sh: &Shape, spec: Option<SpecFn>, mode: Mode, pre: PreFn, idx: i32) {
+    run_shape_opt(ins, sh, spec, mode, pre, Some(idx));
+}
+
+fn run_shape_opt(ins: &mut Instruction, sh: &Shape, spec: Option<SpecFn>, mode: Mode, pre: PreFn, idx: Option<i32>) {
     let mut st = build(sh);
+    if let Some(v) = idx {
+        if let Some(t) = st.int_stack.get_mut(0) {
+            *t = v;
+        }
+    }
     kani::assume(pre(&st));
     let cache = icache();
+    if mode == Mode::Cost {
+        kani::assume(cost_pre(&st));
+        (ins.execute)(&mut st, &cache);
+        assert_cost(&st, sh);
+        std::mem::forget(st);
+        std::mem::forget(cache);
+        return;
+    }
+    if mode == Mode::Twice {
+        let mut st2 = twin(&st, sh);
+        (ins.execute)(&mut st, &cache);
+        let a = snap(&st);
+        // unrelated activity between the two runs: process-wide node ids are handed out
+        let n1 = pushr::push::graph::Node::new(0);
+        let n2 = pushr::push::graph::Node::new(1);
+        assert!(n1.get_id() != n2.get_id(), "node id handed out twice");
+        (ins.execute)(&mut st2, &cache);
+        let b = snap(&st2);
+        std::mem::forget(st);
+        std::mem::forget(st2);
+        std::mem::forget(cache);
+        assert_snap_eq(&a, &b);
+        return;
+    }
     if mode == Mode::NoPanic {
         (ins.execute)(&mut st, &cache);
         std::mem::forget(st);
